@@ -148,9 +148,53 @@ def _only_try_finally(stmts):
     return None
 
 
-def prog_of(rel, cls, name):
+EXC_SEL = {"ScrapliTimeout": ".timeout", "ScrapliConnectionError": ".connError", "ScrapliAuthenticationFailed": ".authFailed",
+           "ScrapliException": ".scrapli", "Exception": ".exception", "BaseException": ".baseException"}
+
+
+def _exc_class_test(fn, test):
+    """`[<exc type param> is not None and] issubclass(<exc type param>, <Class>)` -> Lean ExcSel term, else None.
+    <exc type param> = the first parameter after self of __exit__ / __aexit__"""
+    params = [a.arg for a in fn.args.args]
+    if len(params) < 2:
+        return None
+    et = params[1]
+    parts = test.values if isinstance(test, ast.BoolOp) and isinstance(test.op, ast.And) else [test]
+    sel = None
+    for part in parts:
+        if isinstance(part, ast.Compare) and len(part.ops) == 1 and isinstance(part.ops[0], ast.IsNot) and _dotted(part.left) == et \
+                and isinstance(part.comparators[0], ast.Constant) and part.comparators[0].value is None:
+            continue
+        if isinstance(part, ast.Call) and _dotted(part.func) == "issubclass" and len(part.args) == 2 and _dotted(part.args[0]) == et \
+                and _dotted(part.args[1]) in EXC_SEL and sel is None:
+            sel = EXC_SEL[_dotted(part.args[1])]
+            continue
+        return None
+    return sel
+
+
+def exit_branches(rel, cls, name):
+    """the leading early-return branches of __exit__ / __aexit__ that test the class of the exception the with-body ended
+    with: `if … issubclass(exception_type, C): <statements>; return`  ->  ([(ExcSel, Prog)], number of statements consumed).
+    (The model's `exitProg` picks the program by the pending exception; anything else in front of the main program stays
+    outside the language and raises TranslateError in prog_of.)"""
     where = f"{rel}:{cls}.{name}"
-    body = _body_wo_doc(_find_method(rel, cls, name))
+    fn = _find_method(rel, cls, name)
+    out, used = [], 0
+    for st in _body_wo_doc(fn):
+        if not (isinstance(st, ast.If) and not st.orelse and st.body and isinstance(st.body[-1], ast.Return) and st.body[-1].value is None):
+            break
+        sel = _exc_class_test(fn, st.test)
+        if sel is None:
+            break
+        out.append(f"({sel}, [{', '.join('.simple ' + gs for gs in _flat(where, st.body[:-1]))}])")
+        used += 1
+    return out, used
+
+
+def prog_of(rel, cls, name, skip=0):
+    where = f"{rel}:{cls}.{name}"
+    body = _body_wo_doc(_find_method(rel, cls, name))[skip:]
     nodes = []
     for i, st in enumerate(body):
         if isinstance(st, ast.Return):
@@ -391,9 +435,12 @@ def generate():
     body += "import ScrapliModel.LifecycleSyntax\nnamespace Scrapli.Gen.Lifecycle\nopen Scrapli.Lifecycle\n\n"
     for lean, rel, cls, names in (("sync", sync, "Driver", ("open", "close", "__enter__", "__exit__")),
                                   ("async", asyn, "AsyncDriver", ("open", "close", "__aenter__", "__aexit__"))):
+        branches, used = exit_branches(rel, cls, names[3])
         for field, name in zip(("Open", "Close", "Enter", "Exit"), names):
-            body += f"/-- {rel}: {cls}.{name} -/\ndef {lean}{field} : Prog :=\n  {prog_of(rel, cls, name)}\n\n"
-        body += f"def {lean}Code : Code := ⟨{lean}Open, {lean}Close, {lean}Enter, {lean}Exit⟩\n\n"
+            body += f"/-- {rel}: {cls}.{name} -/\ndef {lean}{field} : Prog :=\n  {prog_of(rel, cls, name, skip=used if field == 'Exit' else 0)}\n\n"
+        body += (f"/-- {rel}: {cls}.{names[3]}: early-return branches on the class of the exception the with-body ended with -/\n"
+                 f"def {lean}ExitOn : List (ExcSel × Prog) :=\n  [{', '.join(branches)}]\n\n")
+        body += f"def {lean}Code : Code := ⟨{lean}Open, {lean}Close, {lean}Enter, {lean}Exit, {lean}ExitOn⟩\n\n"
     body += "def codeOf : Stack → Code\n  | .sync => syncCode\n  | .async => asyncCode\n\n"
     opens, closes = [], []
     for short, pkg in PLATFORMS:
